@@ -291,6 +291,13 @@ func c09RunSchedule(c *c09Case, order []c09Event, grace time.Duration) c09Schedu
 		}
 	}
 
+	sent := make([]int, len(c.Progs))
+	give := func(i, upto int) {
+		for sent[i] < upto {
+			bodies[i].tok <- struct{}{}
+			sent[i]++
+		}
+	}
 	for _, e := range order {
 		switch e.kind {
 		case 'P':
@@ -298,20 +305,40 @@ func c09RunSchedule(c *c09Case, order []c09Event, grace time.Duration) c09Schedu
 			if !c.Raw {
 				lq = append(lq, state.LockRequest{ID: c09SystemIDStr, Lock: state.AccountReadLock})
 			}
-			cur = cur.GetFuture(lq)
+			// GetFuture does not block in goloop today; should an implementation wait there for an earlier
+			// transaction (which the harness is holding at a gate), let the prepared bodies run freely
+			// instead of dead-locking the harness: that changes the explored interleaving, never the verdict.
+			parent := cur
+			ch := make(chan state.WorldVirtualState, 1)
+			go func() { ch <- parent.GetFuture(lq) }()
+			select {
+			case cur = <-ch:
+			case <-time.After(200 * time.Millisecond):
+				res.blocked++
+				for i, b := range bodies {
+					if b != nil {
+						give(i, 3)
+					}
+				}
+				select {
+				case cur = <-ch:
+				case <-time.After(60 * time.Second):
+					ev.Inconclusive("C09: GetFuture did not return within 60s although every earlier body was released; case %s", c.desc())
+				}
+			}
 			futures[e.idx] = cur
 			b := &c09Body{tok: make(chan struct{}, 3)}
 			bodies[e.idx] = b
 			wg.Add(1)
 			go body(e.idx, cur, b)
 		case 'S':
-			bodies[e.idx].tok <- struct{}{}
+			give(e.idx, 1)
 			waitStage(bodies[e.idx], c09StageRead)
 		case 'W':
-			bodies[e.idx].tok <- struct{}{}
+			give(e.idx, 2)
 			waitStage(bodies[e.idx], c09StageWritten)
 		case 'C':
-			bodies[e.idx].tok <- struct{}{}
+			give(e.idx, 3)
 			waitStage(bodies[e.idx], c09StageDone)
 		}
 	}
